@@ -329,6 +329,8 @@ def random_history(rng, nmax=40, big=True, pattern=None):
             out.append((d, data[1:]))
         else:
             out.append((d, data))
+            if 0 < ln <= 600 and (ln + i) % 9 == 0:
+                out.append((d, data))       # the same message sent twice in a row: two records with identical plaintext
     return out, pattern
 
 
